@@ -108,6 +108,9 @@ struct BenchSpec {
     span: u64,
     counters: [Option<u64>; 3], // bytes, chars, items
     alloc: usize,
+    /// `Some(t)`: only the calls whose cost offset is `t` allocate (so that any subset of the
+    /// fastest / slowest / median samples can be the allocating ones); `None`: every call does.
+    alloc_only: Option<u64>,
     module_path: String,
     line: u32,
 }
@@ -215,6 +218,7 @@ fn parse_node(t: &mut Toks, path: &str, spec: &mut Spec, line: &mut u32) {
                 span: beh[3].parse().unwrap(),
                 counters,
                 alloc: beh[5].parse().unwrap(),
+                alloc_only: if beh.len() > 6 && beh[6].starts_with('o') { Some(beh[6][1..].parse().unwrap()) } else { None },
                 module_path: path.to_string(),
                 line: *line,
             });
@@ -296,8 +300,17 @@ struct RunRec {
 }
 static RUNS: Mutex<Vec<RunRec>> = Mutex::new(Vec::new());
 
+fn cost_offset(b: &BenchSpec, i: u64) -> u64 {
+    (i.wrapping_mul(7919).wrapping_add(b.seed)) % b.span.max(1)
+}
+
 fn cost(b: &BenchSpec, i: u64) -> u64 {
-    b.lo + (i.wrapping_mul(7919).wrapping_add(b.seed)) % b.span.max(1)
+    b.lo + cost_offset(b, i)
+}
+
+/// Does call `i` allocate?
+fn allocates(b: &BenchSpec, i: u64) -> bool {
+    b.alloc > 0 && b.alloc_only.map_or(true, |t| cost_offset(b, i) == t)
 }
 
 fn run_entry(k: usize, arg: Option<usize>, bencher: divan::Bencher) {
@@ -311,7 +324,7 @@ fn run_entry(k: usize, arg: Option<usize>, bencher: divan::Bencher) {
     bencher.bench(move || {
         let i = calls.fetch_add(1, Ordering::Relaxed);
         v::vclock_advance(cost(b, i));
-        if alloc > 0 {
+        if allocates(b, i) {
             divan::black_box(Vec::<u8>::with_capacity(alloc));
         }
     });
@@ -442,6 +455,7 @@ fn expected_cells(b: &BenchSpec, n: u64, profile: bool, binary: bool) -> String 
     if let Some(c) = b.counters[2] { counts[3] = vec![c]; }
     let infos: Vec<(u32, v::PlainAllocInfo)> = if profile && b.alloc > 0 {
         (0..n as u32)
+            .filter(|&i| allocates(b, i as u64))
             .map(|i| {
                 let a = b.alloc as u64;
                 // [grow, shrink, alloc, dealloc]
